@@ -13,7 +13,7 @@ Oracles (all evaluated on what the real code did):
       Go panic trace.
 Partial by nature: encoding/json, yaml.v3 and starlark are third-party decoders; they are
 covered by (1) and (3) only, not by any theorem."""
-import json, os, re, shutil, subprocess
+import json, os, re, shutil, subprocess, time
 from concurrent.futures import ThreadPoolExecutor
 import vlib
 from vlib import hx, unhx
@@ -623,11 +623,6 @@ def diff_hint(o):
     return o[0] + (":" + o[1] if o[0] != "ok" else " #%x" % (hash(o[1]) & 0xFFFF))
 
 
-def new_stats():
-    return {"xformat_cases": 0, "xformat_loads": 0, "makefile_cases": 0, "makefile_dropped": 0, "makefile_bare_panics": 0, "traces": 0,
-            "outcomes": {}, "nontrivial": set()}
-
-
 def _quick_probe(n=40, seed=1):
     """developer entry: python3 -c 'import c16; c16._quick_probe()'"""
     out = vlib.Outcome("C16", "quick")
@@ -766,15 +761,68 @@ def eval_scanners(out, h, drv, cases, findings, stats):
 
 def eval_robustness(out, h, drv, base, cases, findings, stats):
     """cases: [(file name, content bytes, origin)] -> loadfile; outcome must be ok/error/nomatch"""
+    return eval_robustness_confirmed(out, h, drv, base, cases, findings, stats)
+
+
+# ------------------------------------------------------------------ harness plumbing with a per-run case timeout
+def run_lines_env(binary, lines, env_extra, timeout=1800):
+    """vlib.run_lines with extra environment (the per-case timeout of the Go harness)"""
+    d = vlib.scratch()
+    inp = os.path.join(d, "in-%d-%d.txt" % (os.getpid(), time.time_ns()))
+    with open(inp, "w") as f:
+        f.write("\n".join(lines) + "\n")
+    with open(inp) as f:
+        p = subprocess.run([binary], stdin=f, stdout=subprocess.PIPE, stderr=subprocess.PIPE, timeout=timeout, text=True,
+                           env=dict(os.environ, **env_extra))
+    os.unlink(inp)
+    o = p.stdout.split("\n")
+    if o and o[-1] == "":
+        o.pop()
+    return p.returncode, o, p.stderr
+
+
+def confirm_hang(h, line, ms):
+    """re-run one case alone, in a fresh harness process, with a longer per-case timeout: 'hang' must
+    not be an artefact of a loaded machine"""
+    rc, o, err = run_lines_env(h, [line], {"VERIF_CASE_TIMEOUT_MS": str(ms)}, timeout=ms / 1000.0 + 60)
+    return o[0] if o else "crash\t" + hx(b(err[-1200:] or "harness died rc=%s" % rc))
+
+
+def loadfile_line(root, fn):
+    return "loadfile\t%s\t%s\t%s" % (hx(root), hx(os.path.join(root, "pkg", fn)), hx(fn))
+
+
+def eval_robustness_confirmed(out, h, drv, base, cases, findings, stats, first_ms=None, confirm_ms=15000):
+    """eval_robustness, but an answer 'hang' only counts after it has been confirmed alone with
+    [confirm_ms]; a case that answers in the confirmation run is judged on that answer."""
     lines = []
     for i, (fn, content, origin) in enumerate(cases):
         root = os.path.join(base, "r%d" % i)
         write_file(os.path.join(root, "pkg", fn), content)
-        lines.append("loadfile\t%s\t%s\t%s" % (hx(root), hx(os.path.join(root, "pkg", fn)), hx(fn)))
-    ans = run_harness(h, lines)
-    bad = []
+        lines.append(loadfile_line(root, fn))
+    env = {"VERIF_CASE_TIMEOUT_MS": str(first_ms)} if first_ms else {}
+    ans, i = [], 0
+    while i < len(lines):                     # run_harness with env
+        rc, o, err = run_lines_env(h, lines[i:], env)
+        o = o[:len(lines) - i]
+        ans += o
+        i += len(o)
+        if i < len(lines):
+            ans.append("crash\t" + hx(b(err[-1200:] or "harness died rc=%s" % rc)))
+            i += 1
+    for k, a in enumerate(ans):
+        if a.split("\t")[0] == "hang":
+            stats["hangs_reexamined"] += 1
+            ans[k] = confirm_hang(h, lines[k], confirm_ms)
+    return judge_robustness(out, drv, cases, ans, findings, stats)
+
+
+def judge_robustness(out, drv, cases, ans, findings, stats):
+    """the judging half of eval_robustness on given answers; returns [(case, status)]"""
+    bad, res = [], []
     for (fn, content, origin), a in zip(cases, ans):
         st, pay, msg = obs_impl(a)
+        res.append(((fn, content, origin), st))
         stats["robust_cases"] += 1
         key = fn + ":" + st
         stats["robust_outcomes"][key] = stats["robust_outcomes"].get(key, 0) + 1
@@ -782,19 +830,712 @@ def eval_robustness(out, h, drv, base, cases, findings, stats):
             stats["nontrivial"].add(("rb", fn, content))
         if st not in ("ok", "error", "nomatch"):
             bad.append((fn, content, origin, st, msg))
-    guards = model_guards(drv, [c for fn, c, o, st, msg in bad if fn == "Makefile"]) if drv else []
+    guards = model_guards(drv, [c for fn, c, o, st, msg in bad if fn == "Makefile"])
     gi = iter(guards)
     for fn, content, origin, st, msg in bad:
         rep = {"kind": "robust", "file": fn, "content_hex": content.hex(), "origin": origin, "observed": st, "detail": msg}
         if fn == "Makefile":
             g = next(gi)
             if st == "panic" and g is False and "makefile-bare-annotation-panic" in findings:
-                out.known(findings["makefile-bare-annotation-panic"]["id"], "Makefile %r panics the loader: %s" % (content[:40].decode("latin-1"), msg[:60]))
+                out.known(findings["makefile-bare-annotation-panic"]["id"],
+                          "Makefile %r panics the loader: %s" % (content[:40].decode("latin-1"), msg[:60]))
                 stats["robust_known"] += 1
                 continue
-        if st == "hang" and fn in ("BUILD.star", "BUILD.bzl") and re.search(rb"\bfor\b", content) and "starlark-unbounded-execution" in findings:
+        if st == "hang" and fn in ("BUILD.star", "BUILD.bzl") and star_has_loop(content) and "starlark-unbounded-execution" in findings:
             out.known(findings["starlark-unbounded-execution"]["id"],
-                      "a BUILD.star with a long-running loop never finishes loading (no step limit, no cancellation): %r" % content[:60].decode("latin-1"))
+                      "a BUILD.star with a long-running loop never finishes loading (no step limit, no cancellation): %r" % content[:70].decode("latin-1"))
             stats["robust_known"] += 1
             continue
         out.violation("loader %s on %s (%s): %s" % (st, fn, origin, msg[:160]), rep)
+    return res
+
+
+def star_has_loop(content):
+    """class guard of C16-F3, evaluated on the failing bytes: the program contains an iteration
+    construct (for statement / comprehension) -- the only way a Starlark program without recursion
+    can run long"""
+    return re.search(rb"\bfor\b[^\n]*\bin\b", content) is not None
+
+
+# ------------------------------------------------------------------ generators for (3)
+ROBUST_NASTIES = [
+    ("BUILD.json", b""), ("BUILD.json", b"null"), ("BUILD.json", b"[]"), ("BUILD.json", b"{"), ("BUILD.json", b'{"targets": null}'),
+    ("BUILD.json", b'{"targets": [null]}'), ("BUILD.json", b'{"targets": [{"name": 3}]}'), ("BUILD.json", b'{"targets": {"a": 1}}'),
+    ("BUILD.json", b'{"targets": [{"name": "a", "command": "x", "inputs": null, "outputs": [null]}]}'),
+    ("BUILD.json", b'{"targets": [{"name": "a", "command": "x", "timeout": 5}]}'), ("BUILD.json", b"[" * 20000),
+    ("BUILD.json", b'{"targets": [{"name": "a", "command": "x", "fingerprint": {"k": 1}}]}'), ("BUILD.json", b"\xff\xfe{}"),
+    ("BUILD.json", b'{"targets": [{"name": "\\ud800", "command": "x"}]}'), ("BUILD.json", b'{"aliases": [{"name": "a"}]}'),
+    ("BUILD.json", b'{"targets": [{"name": "a", "command": "x", "platforms": null}], "default_platforms": null}'),
+    ("BUILD.json", b'{"targets": [{"name": "a", "command": "x", "output_checks": [{}]}]}'),
+    ("BUILD.json", b'{"targets": [{"name": "a", "command": "x", "inputs": ["' + b"*/" * 40 + b'*"]}]}'),
+    ("BUILD.json", b'{"targets": [{"name": "a", "command": "x", "inputs": ["{a,b}{c,d}{e,f}{g,h}{i,j}{k,l}{m,n}{o,p}"]}]}'),
+    ("BUILD.json", b'{"targets": [{"name": "a", "command": "x", "inputs": ["[a-"]}]}'),
+    ("BUILD.json", b'{"targets": [{"name": "a", "command": "x", "inputs": ["../../../etc/*"]}]}'),
+    ("BUILD.json", b'{"targets": [{"name": "a", "command": "x", "inputs": ["/abs/*"]}]}'),
+    ("BUILD.json", b'{"targets": [{"name": "a", "command": "x", "outputs": ["docker::"]}]}'),
+    ("BUILD.json", b'{"targets": [{"name": "a", "command": "x", "bin_output": "::"}]}'),
+    ("BUILD.json", b'{"targets": [{"name": "a", "command": "x", "timeout": "-1s"}]}'),
+    ("BUILD.json", b'{"targets": [{"name": "a", "command": "x", "timeout": "9999999999999h"}]}'),
+    ("BUILD.yaml", b""), ("BUILD.yaml", b"~"), ("BUILD.yaml", b"- a\n- b\n"), ("BUILD.yaml", b"targets: 3\n"), ("BUILD.yaml", b"targets:\n  - 3\n"),
+    ("BUILD.yaml", b"targets:\n  - name: [a]\n"), ("BUILD.yaml", b"targets: &a\n  - name: x\n    command: y\naliases: *a\n"),
+    ("BUILD.yaml", b"a: &a [x, x]\nb: &b [*a, *a]\nc: &c [*b, *b]\nd: &d [*c, *c]\ne: &e [*d, *d]\nf: &f [*e, *e]\ntargets: *f\n"),
+    ("BUILD.yaml", b"targets:\n\t- name: a\n"), ("BUILD.yaml", b"targets: !!binary xx\n"), ("BUILD.yaml", b"? [a]\n: b\n"),
+    ("BUILD.yaml", b"targets:\n  - <<: {name: a, command: b}\n"), ("BUILD.yaml", b"targets:\n  - name: a\n    name: b\n    command: c\n"),
+    ("BUILD.yaml", b"%YAML 9.9\n---\ntargets: []\n"), ("BUILD.yaml", b"--- a\n--- b\n"), ("BUILD.yaml", b"targets: [" * 3000),
+    ("BUILD.yaml", b"\xef\xbb\xbftargets: []\n"), ("BUILD.yaml", b"targets:\n  - name: a\n    command: x\n    timeout: 1e3\n"),
+    ("BUILD.yml", b"targets:\n  - name: a\n    command: x\n    platforms: ~\n"),
+    ("BUILD.star", b""), ("BUILD.star", b"target("), ("BUILD.star", b"target()"), ("BUILD.star", b"target(name = 3)"),
+    ("BUILD.star", b"def f():\n    f()\nf()\n"), ("BUILD.star", b"load('//x.star', 'y')\n"), ("BUILD.star", b"load('BUILD.star', 'y')\n"),
+    ("BUILD.star", b"load('../../../../etc/passwd', 'y')\n"), ("BUILD.star", b"target(name = 'a', command = 'x', inputs = 'abc')\n"),
+    ("BUILD.star", b"target(name = 'a', command = 'x', fingerprint = {1: 2})\n"), ("BUILD.star", b"target(name = 'a', command = 'x', bogus = 1)\n"),
+    ("BUILD.star", b"target(name = 'a' * 100000, command = 'x')\n"), ("BUILD.star", b"x = [1] * 1000\ntarget(name = 'a', command = 'x', inputs = x)\n"),
+    ("BUILD.star", b"alias(name = 'a')\n"), ("BUILD.star", b"alias('a', 'b', 'c')\n"), ("BUILD.star", b"fail('boom')\n"), ("BUILD.star", b"1 // 0\n"),
+    ("BUILD.star", b"target(name = 'a', command = 'x', platforms = None)\n"), ("BUILD.star", b"target = 3\ntarget(name = 'a')\n"),
+    ("BUILD.star", b"[target(name = 'n%d' % i, command = 'x') for i in range(3)]\n"), ("BUILD.star", b"\x00"),
+    ("BUILD.bzl", b"target(name = 'a', command = 'x', timeout = 5)\n"), ("BUILD.star", b"(" * 5000),
+    ("Makefile", b"# @grog\n# name: a\n# timeout: 1s\n# platforms: [linux/amd64]\nall:\n\ttrue\n"),
+    ("Makefile", b"# @grog\n"), ("Makefile", b"# @grog\nall:\n"), ("Makefile", b"all:\n\ttrue\n"), ("Makefile", b"# @grog\n# name: a\nall\n"),
+    ("x.grog.sh", b"#!/bin/sh\n# @grog\n# name: a\necho\n"), ("x.grog.sh", b"# @grog\necho\n"), ("x.grog.sh", b"# @grog\n# name: [\necho\n"),
+    ("x.grog.py", b"# @grog\n# inputs: 3\nprint()\n"), ("x.grog.sh", b""), ("x.grog.sh", b"# @grog\n# name: a\n" + b"y" * LONG),
+]
+STAR_HANGS = [
+    STAR_LOOP,
+    b"x = [i for i in range(1 << 40)]\ntarget(name = \"a\", command = \"true\")\n",
+]
+
+
+def render_script(rng, t):
+    ann = {k: v for k, v in t.items() if k in ("name", "dependencies", "inputs", "tags", "fingerprint", "platforms",
+                                               "environment_variables", "timeout")}
+    body = "".join(k + ":" + render_yaml_value(rng, v, 2) for k, v in shuffled_items(rng, ann))
+    return rng.choice(["#!/bin/sh\n", "", "#!/usr/bin/env python3\n\n"]) + "# @grog\n" + \
+        "".join(("# " + l if l else "#") + "\n" for l in body.split("\n")[:-1]) + rng.choice(["", "\n"]) + "echo run\n"
+
+
+def scanner_cases(rng, xcases, n_mut):
+    cases = [("mk", c) for c in SCAN_NASTIES] + [("sh", c) for c in SCAN_NASTIES]
+    seeds = [("mk", b(c["files"]["mk"][1])) for c in xcases if "mk" in c["files"]]
+    for c in xcases:
+        for t in c["dto"]["targets"][:1]:
+            seeds.append(("sh", b(render_script(rng, t))))
+    cases += seeds[:max(40, n_mut // 4)]
+    for _ in range(n_mut):
+        k, c = rng.choice(seeds)
+        m = mutate(rng, c)
+        cases.append((k if rng.chance(5, 6) else ("sh" if k == "mk" else "mk"), m))
+    return cases
+
+
+def robustness_cases(rng, xcases, n_mut):
+    cases = [(fn, c, "hand-written") for fn, c in ROBUST_NASTIES]
+    pool = []
+    for c in xcases:
+        for fmt, (fn, txt) in c["files"].items():
+            if fmt in ("json", "yaml", "star", "mk"):
+                pool.append((fn, b(txt), "case %d %s" % (c["id"], fmt)))
+        pool.append(("x.grog.sh", b(render_script(rng, c["dto"]["targets"][0])), "case %d script" % c["id"]))
+    for _ in range(n_mut):
+        fn, c, origin = rng.choice(pool)
+        if fn == "BUILD.yaml" and rng.chance(1, 8):
+            fn = "BUILD.yml"
+        if fn == "BUILD.star" and rng.chance(1, 8):
+            fn = "BUILD.bzl"
+        if rng.chance(1, 40):
+            fn = rng.choice(["BUILD.json", "BUILD.yaml", "BUILD.star", "Makefile", "x.grog.py"])   # bytes of one format under another name
+        cases.append((fn, mutate(rng, c), "mutation of " + origin))
+    return cases
+
+
+# ------------------------------------------------------------------ (2) determinism
+DET_DIRS = ["pa", "pb/x", "pc", ".", "pd/y/z", "pe"]     # no directory inside another one, apart from the root
+
+
+def restrict_package(rng, d, used, root, collide):
+    """make a generated package fit next to the other files of its directory: names not used yet
+    (unless a collision is wanted), root package without glob patterns (the reference glob table
+    is per directory content, and the root contains every other package)"""
+    ts = []
+    for t in d["targets"]:
+        if t["name"] in used and not collide:
+            continue
+        if root:
+            t = {k: v for k, v in t.items() if k != "exclude_inputs"}
+            if "inputs" in t:
+                t["inputs"] = [i for i in t["inputs"] if not any(ch in i for ch in "*?[{")]
+        used.add(t["name"])
+        ts.append(t)
+    d = dict(d, targets=ts)
+    if "aliases" in d:
+        als = []
+        for a in d["aliases"]:
+            if a["name"] in used and not collide:
+                continue
+            used.add(a["name"])
+            als.append(a)
+        d["aliases"] = als
+    return d
+
+
+def build_dcase(rng, drv, i):
+    dirs = rng.sample(DET_DIRS, 2 + rng.below(3))
+    collide = rng.chance(1, 5)
+    files, frags = [], []
+    for pkg in dirs:
+        used = set()
+        for fmt in rng.sample(["json", "yaml", "star", "mk"], 1 + rng.below(3)):
+            d = restrict_package(rng, gen_package(rng, wild=False), used, pkg == ".", collide)
+            if fmt == "star":
+                d.pop("default_platforms", None)
+            if fmt == "mk":
+                dm = mk_projection(d)
+                if dm is None or not dm["targets"]:
+                    continue
+                txt = render_makefile(rng, dm)
+                if not model_guards(drv, [txt])[0]:
+                    continue        # the panicking shape (known finding, judged elsewhere) would kill the whole LoadPackages
+                files.append([pkg, "Makefile", txt])
+                frags.append([pkg, drop_fields(strip_private(dm))])
+            else:
+                fn, rend = RENDER[fmt]
+                files.append([pkg, fn, rend(rng, d)])
+                frags.append([pkg, d])
+    return {"kind": "determinism", "id": i, "files": files, "frags": frags, "collide": collide}
+
+
+def materialise_ws(root, files, order_rng=None):
+    """create the workspace; with order_rng the directories and files are created in shuffled order"""
+    pkgs = sorted({p for p, _, _ in files})
+    items = [("dir", p) for p in pkgs]
+    if order_rng:
+        items = order_rng.shuffle(items)
+    for _, p in items:
+        d = os.path.normpath(os.path.join(root, p))
+        fl = list(FILES)
+        own = [(fn, txt) for q, fn, txt in files if q == p]
+        if order_rng:
+            fl = order_rng.shuffle(fl)
+            own = order_rng.shuffle(own)
+            both = order_rng.shuffle([("f", x) for x in fl] + [("b", x) for x in own])
+        else:
+            both = [("f", x) for x in fl] + [("b", x) for x in own]
+        for kind, x in both:
+            if kind == "f":
+                write_file(os.path.join(d, x), x)
+            else:
+                write_file(os.path.join(d, x[0]), x[1])
+    write_file(os.path.join(root, "grog.toml"), "")
+
+
+def load_projection(line, model=False):
+    """accept -> ('ok', canonical packages) ; reject (LoadPackages error or duplicate node) -> ('reject', '') ; else status"""
+    st, pay, msg = (obs_model if model else obs_impl)(line)
+    if st == "ok":
+        if pay[0] != "nodes-ok":
+            return ("reject", "")
+        pk = [canon_pkg(p, keep_path=False) for p in json.loads(pay[1])]
+        return ("ok", json.dumps(sorted(pk, key=lambda p: unhx(p["path"])), sort_keys=True))
+    if st == "error":
+        return ("reject", "")
+    return (st, msg[-300:])
+
+
+def merge_line(frags, globs):
+    pats = sorted(set().union(*[patterns_of(d) for _, d in frags]) if frags else [])
+    gt = sx_list(["( %s %s )" % (hx(b(p)), "E" if globs.get(p) is None else sx_strs(globs[p])) for p in pats])
+    durs = sorted({r for _, d in frags for r in dur_rows(d)})
+    return "merge\t%s\t%s\t%s" % (sx_list(["( %s %s )" % (hx(b(p)), sx_package(d)) for p, d in frags]), gt, sx_list(durs))
+
+
+def dur_rows(d):
+    rows = []
+    for t in d.get("targets", []):
+        raw = t.get("timeout", "")
+        if raw:
+            rows.append("( %s %s )" % (hx(b(raw)), "E" if DUR.get(raw) is None else hx(DUR[raw])))
+    return rows
+
+
+def reference_globs(h, base, pats):
+    ref = make_pkg_dir(os.path.join(base, "globref"), ".")
+    ans = run_harness(h, ["glob\t%s\t%s" % (hx(b(ref)), hx(b(p))) for p in pats])
+    globs = {}
+    for p, a in zip(pats, ans):
+        f = a.split("\t")
+        globs[p] = None if f[0] != "ok" else [unhx(x).decode("utf-8", "surrogateescape") for x in (f[1].split(",") if len(f) > 1 and f[1] else [])]
+    return globs
+
+
+WORKERS = (1, 2, 16)
+
+
+def eval_determinism(out, h, drv, base, rng, dcases, stats):
+    pats = sorted(set().union(*[patterns_of(d) for c in dcases for _, d in c["frags"]]) if dcases else [])
+    globs = reference_globs(h, base, pats)
+    lines, idx = [], []
+    for c in dcases:
+        ra = os.path.join(base, "d%s" % c["id"], "a")
+        rb = os.path.join(base, "d%s" % c["id"], "b")
+        materialise_ws(ra, c["files"])
+        materialise_ws(rb, c["files"], vlib.Rng(rng.next()))
+        for tag, root in (("sorted", ra), ("shuffled", rb)):
+            for w_ in WORKERS:
+                lines.append("load\t%s\t%d" % (hx(root), w_))
+                idx.append((c["id"], tag, w_))
+    impl = dict(zip(idx, run_harness(h, lines)))
+    mlines = []
+    for c in dcases:
+        mlines.append(merge_line(c["frags"], globs))
+        mlines.append(merge_line(vlib.Rng(rng.next()).shuffle(c["frags"]), globs))
+    rc, mo, me = vlib.run_lines(drv, mlines)
+    if rc != 0 or len(mo) != len(mlines):
+        raise RuntimeError("model driver failed on merge rc=%s %d/%d %s" % (rc, len(mo), len(mlines), me[-400:]))
+    for k, c in enumerate(dcases):
+        stats["det_cases"] += 1
+        obs = {(tag, w_): load_projection(impl[(c["id"], tag, w_)]) for tag in ("sorted", "shuffled") for w_ in WORKERS}
+        stats["det_loads"] += len(obs)
+        crashed = [(kk, v) for kk, v in obs.items() if v[0] not in ("ok", "reject")]
+        for (tag, w_), v in crashed[:1]:
+            out.violation("LoadPackages %s on a generated workspace (%s creation order, num_workers=%d): %s" % (v[0], tag, w_, v[1][:160]),
+                          dict(c, observed=v[0], detail=v[1], workers=w_, order=tag))
+        if crashed:
+            continue
+        vals = set(obs.values())
+        key = next(iter(vals))[0] if len(vals) == 1 else "diff"
+        stats["det_outcomes"][key] = stats["det_outcomes"].get(key, 0) + 1
+        if len(vals) > 1:
+            out.violation("the loaded graph depends on the worker count / directory creation order: " +
+                          "; ".join("%s/%d -> %s" % (t_, w_, diff_hint(v)) for (t_, w_), v in sorted(obs.items())),
+                          dict(c, observed={"%s/%d" % kk: list(v) for kk, v in obs.items()}))
+            continue
+        stats["nontrivial"].add(("det", json.dumps(c["files"], sort_keys=True)))
+        m1, m2 = load_projection(mo[2 * k], model=True), load_projection(mo[2 * k + 1], model=True)
+        if m1 != m2:
+            out.violation("Loader.load_all gives different results for two arrival orders of the same fragments (contradicts "
+                          "C16_merge_order_independent): %s vs %s" % (diff_hint(m1), diff_hint(m2)),
+                          {"theorem": "C16_merge_order_independent", "case": c, "model": [list(m1), list(m2)]}, no_input=True)
+        elif m1 not in vals:
+            out.violation("correspondence Loader.load_all ~ LoadPackages + BuildNodeMapFromPackages broke: model %s, implementation %s "
+                          "(all six loads of the workspace agree with each other)" % (diff_hint(m1), diff_hint(next(iter(vals)))),
+                          {"correspondence": "Loader.enrich/merge_all/load_all vs loading.LoadPackages + model.BuildNodeMapFromPackages",
+                           "case": c, "model": list(m1), "impl": list(next(iter(vals)))}, no_input=True)
+        else:
+            stats["traces"] += len(obs)
+
+
+# ------------------------------------------------------------------ (4) CLI
+PANIC_RE = re.compile(r"panic:|goroutine \d+ \[|runtime error|fatal error:")
+
+
+def cli_package(rng):
+    """a package whose graph builds: dependencies on later targets of the same package only, aliases
+    of own targets, no testonly tag"""
+    d = gen_package(rng, wild=False)
+    names = [t["name"] for t in d["targets"]]
+    for i, t in enumerate(d["targets"]):
+        later = names[i + 1:]
+        if later and rng.chance(2, 3):
+            t["dependencies"] = [":" + n for n in rng.sample(later, 1 + rng.below(min(2, len(later))))]
+        else:
+            t.pop("dependencies", None)
+        if "tags" in t:
+            t["tags"] = [x for x in t["tags"] if x != "testonly"] or ["t1"]
+    for a in d.get("aliases", []):
+        a["actual"] = ":" + rng.choice(names)
+    return d
+
+
+def run_grog(grog, ws, top, args, timeout=40):
+    env = dict(os.environ, GROG_ROOT=os.path.join(top, "groot"), HOME=top)
+    try:
+        p = subprocess.run([grog] + args, cwd=ws, env=env, stdout=subprocess.PIPE, stderr=subprocess.PIPE, timeout=timeout)
+        return p.returncode, p.stdout.decode("utf-8", "replace"), p.stderr.decode("utf-8", "replace")
+    except subprocess.TimeoutExpired:
+        return None, "", "timeout"
+
+
+def canon_graph(stdout):
+    g = json.loads(stdout)
+    nodes = []
+    for n in g.get("nodes") or []:
+        n = dict(n)
+        n["inputs"] = sorted(n.get("inputs") or [])
+        n.pop("is_selected", None)
+        nodes.append(n)
+    nodes.sort(key=lambda n: (n["label"]["package"], n["label"]["name"]))
+    edges = {k: sorted(v or []) for k, v in (g.get("edges") or {}).items() if v}
+    return json.dumps({"nodes": nodes, "edges": edges}, sort_keys=True)
+
+
+def cli_obs(r):
+    rc, so, se = r
+    txt = so + se
+    if rc is None:
+        return ("hang", "")
+    if PANIC_RE.search(txt):
+        return ("panic", txt[-500:])
+    if rc == 0:
+        try:
+            return ("ok", canon_graph(so))
+        except Exception:
+            return ("ok-unparsable", so[-300:])
+    return ("error", err_class(txt))
+
+
+def eval_cli(out, grog, drv, base, rng, n_pkgs, corrupt, findings, stats):
+    """corrupt: [(file name, content bytes, in-process status)]"""
+    jobs, cases = [], []
+    for i in range(n_pkgs):
+        d = cli_package(rng)
+        pkg = rng.choice(PKG_PATHS)
+        c = {"kind": "cli", "id": i, "pkg": pkg, "dto": d, "files": {}}
+        for fmt, (fn, rend) in RENDER.items():
+            txt = rend(rng, d)
+            if txt is not None:
+                c["files"][fmt] = [fn, txt]
+        dm = mk_projection(d)
+        if dm is not None:
+            c["files"]["mk"] = ["Makefile", render_makefile(rng, dm)]
+            c["files"]["mkjson"] = ["BUILD.json", render_json(rng, dm)]
+            c["files"]["mkjson0"] = ["BUILD.json", render_json(rng, drop_fields(strip_private(dm)))]
+        cases.append(c)
+        for fmt, (fn, txt) in c["files"].items():
+            top = os.path.join(base, "cli%d" % i, fmt)
+            ws = os.path.join(top, "ws")
+            write_file(os.path.join(make_pkg_dir(ws, pkg), fn), txt)
+            write_file(os.path.join(ws, "grog.toml"), "")
+            jobs.append((("pkg", i, fmt), ws, top))
+    for j, (fn, content, st) in enumerate(corrupt):
+        top = os.path.join(base, "clic%d" % j)
+        ws = os.path.join(top, "ws")
+        write_file(os.path.join(ws, "pkg", fn), content)
+        write_file(os.path.join(ws, "grog.toml"), "")
+        jobs.append((("corrupt", j, fn), ws, top))
+    with ThreadPoolExecutor(16) as ex:
+        res = list(ex.map(lambda jb: run_grog(grog, jb[1], jb[2], ["graph", "-o", "json"]), jobs))
+    obs = {jb[0]: cli_obs(r) for jb, r in zip(jobs, res)}
+    raw = {jb[0]: r for jb, r in zip(jobs, res)}
+    for c in cases:
+        o = {fmt: obs[("pkg", c["id"], fmt)] for fmt in c["files"]}
+        stats["cli_runs"] += len(o)
+        if "mk" in o and o["mk"][0] == "panic":
+            if model_guards(drv, [c["files"]["mk"][1]])[0] is False and "makefile-bare-annotation-panic" in findings:
+                out.known(findings["makefile-bare-annotation-panic"]["id"],
+                          "grog graph on a workspace whose Makefile has a bare '# @grog' block dies with a Go panic trace")
+                stats["cli_known"] += 1
+                for k in ("mk", "mkjson", "mkjson0"):
+                    o.pop(k, None)
+        bad = [(fmt, v) for fmt, v in o.items() if v[0] in ("panic", "hang", "ok-unparsable")]
+        for fmt, v in bad[:1]:
+            out.violation("grog graph -o json: %s on a generated %s" % (v[0], c["files"][fmt][0]),
+                          dict(c, failing_format=fmt, observed=v[0], detail=v[1][-400:]))
+        if bad:
+            continue
+        full = {fmt: o[fmt] for fmt in ("json", "yaml", "star") if fmt in o}
+        vals = set(full.values())
+        stats["cli_outcomes"][next(iter(vals))[0] if len(vals) == 1 else "diff"] = \
+            stats["cli_outcomes"].get(next(iter(vals))[0] if len(vals) == 1 else "diff", 0) + 1
+        if len(vals) > 1:
+            out.violation("grog graph -o json differs across formats for the same package: " +
+                          "; ".join("%s -> %s" % (f, diff_hint(v)) for f, v in sorted(full.items())),
+                          dict(c, observed={f: list(v) for f, v in full.items()}))
+            continue
+        if next(iter(vals))[0] == "ok":
+            stats["nontrivial"].add(("cli", json.dumps(c["dto"], sort_keys=True)))
+        if "mk" in o and "mkjson" in o:
+            if o["mk"] == o["mkjson"]:
+                pass
+            elif o["mk"] == o.get("mkjson0") and "makefile-drops-fields" in findings:
+                out.known(findings["makefile-drops-fields"]["id"],
+                          "grog graph -o json of a Makefile-annotated package equals the graph of the package without "
+                          "fingerprint/platforms/timeout/environment_variables and differs from the same package written as BUILD.json")
+                stats["cli_known"] += 1
+            else:
+                out.violation("grog graph -o json: Makefile annotations and BUILD.json disagree on the expressible projection: %s vs %s" % (
+                    diff_hint(o["mk"]), diff_hint(o["mkjson"])), dict(c, observed={"mk": list(o["mk"]), "mkjson": list(o["mkjson"])}))
+    for j, (fn, content, st) in enumerate(corrupt):
+        v = obs[("corrupt", j, fn)]
+        stats["cli_runs"] += 1
+        stats["cli_corrupt"][st + "->" + v[0]] = stats["cli_corrupt"].get(st + "->" + v[0], 0) + 1
+        rep = {"kind": "cli-corrupt", "file": fn, "content_hex": content.hex(), "inprocess": st, "observed": v[0],
+               "exit": raw[("corrupt", j, fn)][0], "output": (raw[("corrupt", j, fn)][1] + raw[("corrupt", j, fn)][2])[-1500:]}
+        if v[0] == "panic":
+            if fn == "Makefile" and model_guards(drv, [content])[0] is False and "makefile-bare-annotation-panic" in findings:
+                out.known(findings["makefile-bare-annotation-panic"]["id"],
+                          "grog graph with Makefile %r: exit %s and a Go panic trace instead of an error message" % (
+                              content[:30].decode("latin-1"), rep["exit"]))
+                stats["cli_known"] += 1
+            else:
+                out.violation("grog graph: Go panic trace on a corrupt %s" % fn, rep)
+        elif v[0] == "hang":
+            out.violation("grog graph: no exit within the timeout on a corrupt %s" % fn, rep)
+        elif st == "error" and v[0] != "error":
+            out.violation("grog graph exits 0 on a %s that the loader rejects in-process" % fn, rep)
+        elif st == "error":
+            stats["nontrivial"].add(("clic", fn, content))
+
+
+def hang_probe(out_box, h, grog_future, drv, base, findings):
+    """the two programs that cannot finish, in-process (own harness process, short first timeout,
+    confirmed) and once through the CLI; results are judged by the caller's thread"""
+    box = {"inproc": [], "cli": None}
+    try:
+        if h:
+            lines = []
+            for i, content in enumerate(STAR_HANGS):
+                root = os.path.join(base, "hang%d" % i)
+                write_file(os.path.join(root, "pkg", "BUILD.star"), content)
+                lines.append(loadfile_line(root, "BUILD.star"))
+            rc, o, err = run_lines_env(h, lines, {"VERIF_CASE_TIMEOUT_MS": "2500"}, timeout=120)
+            o = (o + ["crash\t" + hx(b(err[-800:] or "died"))] * len(lines))[:len(lines)]
+            for k, a in enumerate(o):
+                if a.split("\t")[0] == "hang" and k == 0:
+                    o[k] = confirm_hang(h, lines[k], 7000)
+            box["inproc"] = o
+        grog = grog_future.result() if grog_future else None
+        if grog:
+            top = os.path.join(base, "hangcli")
+            ws = os.path.join(top, "ws")
+            write_file(os.path.join(ws, "pkg", "BUILD.star"), STAR_LOOP)
+            write_file(os.path.join(ws, "grog.toml"), "")
+            box["cli"] = run_grog(grog, ws, top, ["graph", "-o", "json"], timeout=6)
+    except Exception as e:                      # judged by the caller
+        box["error"] = "%s: %s" % (type(e).__name__, e)
+    out_box.update(box)
+
+
+def new_stats():
+    return {"xformat_cases": 0, "xformat_loads": 0, "makefile_cases": 0, "makefile_dropped": 0, "makefile_bare_panics": 0, "traces": 0,
+            "outcomes": {}, "nontrivial": set(),
+            "scanner_cases": 0, "scanner_outcomes": {}, "scanner_known_panics": 0,
+            "robust_cases": 0, "robust_outcomes": {}, "robust_known": 0, "hangs_reexamined": 0,
+            "det_cases": 0, "det_loads": 0, "det_outcomes": {},
+            "cli_runs": 0, "cli_known": 0, "cli_outcomes": {}, "cli_corrupt": {}}
+
+
+def load_corpus():
+    """corpus/C16/*.jsonl: {"kind": "scanner", "scanner": "mk"|"sh", "content_hex": ...} |
+    {"kind": "robust", "file": ..., "content_hex": ...}"""
+    sc, rb = [], []
+    d = os.path.join(vlib.VERIF, "corpus", "C16")
+    if os.path.isdir(d):
+        for fn in sorted(os.listdir(d)):
+            if fn.endswith(".jsonl"):
+                for l in open(os.path.join(d, fn)):
+                    if l.strip() and not l.startswith("#"):
+                        j = json.loads(l)
+                        if j.get("kind") == "scanner":
+                            sc.append((j["scanner"], bytes.fromhex(j["content_hex"])))
+                        elif j.get("kind") in ("robust", "cli-corrupt"):
+                            rb.append((j["file"], bytes.fromhex(j["content_hex"]), "corpus"))
+    return sc, rb
+
+
+# ------------------------------------------------------------------ run
+def run(out, tier):
+    quick = tier != "thorough"
+    vol = 1 if quick else 10
+    rng = vlib.Rng(vlib.seed())
+    findings = {f["class"]: f for f in vlib.known_findings("C16")}
+    st = new_stats()
+    base = os.path.join(vlib.scratch(), "c16")
+    os.makedirs(base, exist_ok=True)
+    pool = ThreadPoolExecutor(3)
+    grog_f = pool.submit(build_grog_or_none, out)
+    drv = vlib.build_driver("loader")
+    h = None
+    try:
+        h = vlib.build_harness("loader", extra_overlay=INJECT)
+    except vlib.HarnessUnavailable as e:
+        out.notes.append("inprocess_tie: unavailable (%s)" % str(e)[-500:])
+    hang_box = {}
+    hang_f = pool.submit(hang_probe, hang_box, h, grog_f, drv, base, findings)
+
+    corpus_sc, corpus_rb = load_corpus()
+    xcases_all, samples = [], []
+    corrupt_for_cli = []
+    if h:
+        # (1) cross-format, in batches (each case is up to six small workspaces on disk)
+        n_x, batch = 300 * vol, 300
+        for b0 in range(0, n_x, batch):
+            bdir = os.path.join(base, "xf%d" % b0)
+            cases = [build_xcase(rng, bdir, i, i % 3 != 0) for i in range(b0, min(n_x, b0 + batch))]
+            eval_xformat(out, h, drv, bdir, cases, findings, st)
+            xcases_all += cases[:300] if b0 == 0 else []
+            shutil.rmtree(bdir, ignore_errors=True)
+        c0 = xcases_all[1]
+        samples.append({"part": "cross-format", "package_path": c0["pkg"], "dto": c0["dto"],
+                        "renderings": {k: v[1][:400] for k, v in c0["files"].items()}})
+        # (3) scanners against the model, then arbitrary bytes through LoadIfMatched
+        sc = corpus_sc + scanner_cases(rng, xcases_all, 500 * vol)
+        eval_scanners(out, h, drv, sc, findings, st)
+        samples.append({"part": "scanner", "scanner": sc[len(sc) // 2][0], "content": sc[len(sc) // 2][1][:300].decode("latin-1")})
+        rb = corpus_rb + robustness_cases(rng, xcases_all, 2000 * vol)
+        res = []
+        for b0 in range(0, len(rb), 4000):
+            bdir = os.path.join(base, "rb%d" % b0)
+            res += eval_robustness_confirmed(out, h, drv, bdir, rb[b0:b0 + 4000], findings, st)
+            shutil.rmtree(bdir, ignore_errors=True)
+        samples.append({"part": "robustness", "file": rb[-1][0], "origin": rb[-1][2], "content": rb[-1][1][:300].decode("latin-1"),
+                        "observed": res[-1][1]})
+        # corrupt files for the CLI: rejected in-process, a spread of file names; plus a few accepted ones
+        seen_fn = {}
+        for (fn, content, origin), s in res:
+            if s == "error" and seen_fn.get(fn, 0) < 5 * vol and len(content) < 20000:
+                seen_fn[fn] = seen_fn.get(fn, 0) + 1
+                corrupt_for_cli.append((fn, content, s))
+        corrupt_for_cli += [(fn, c, s) for (fn, c, o), s in res if s == "ok" and o.startswith("mutation")][:6 * vol]
+        # (2) determinism
+        dcases = [build_dcase(rng, drv, i) for i in range(40 * vol)]
+        eval_determinism(out, h, drv, base, rng, dcases, st)
+        samples.append({"part": "determinism", "files": [[p, fn, txt[:200]] for p, fn, txt in dcases[0]["files"]],
+                        "loads": ["%s creation order, num_workers=%d" % (t_, w_) for t_ in ("sorted", "shuffled") for w_ in WORKERS]})
+    corrupt_for_cli += [("Makefile", b"# @grog\nfoo:\n\techo hi\n", "panic"), ("BUILD.json", b"{", "error"),
+                        ("BUILD.yaml", b"targets: [", "error"), ("BUILD.star", b"target(", "error")]
+    # (4) CLI
+    grog = grog_f.result()
+    if grog:
+        eval_cli(out, grog, drv, base, rng, 10 * vol, corrupt_for_cli, findings, st)
+    hang_f.result()
+    pool.shutdown()
+    judge_hang_probe(out, hang_box, findings, st)
+
+    evaluations = st["xformat_loads"] + st["scanner_cases"] + st["robust_cases"] + st["det_loads"] + st["cli_runs"]
+    out.cov.update({
+        "evaluations": evaluations,
+        "distinct_nontrivial": len(st["nontrivial"]),
+        "rule": "an evaluation = one load of one file / workspace by the real code (in-process LoadIfMatched+getEnrichedPackage, "
+                "LoadPackages, the annotation scanners, or `grog graph -o json`). non-trivial = cross-format: a generated package on which all "
+                "renderings were loaded and compared (distinct DTOs); scanner: a byte string on which scanner and Loader.scan_*_file agree "
+                "(distinct contents); robustness: a corrupted file that reaches a decoder (ok/error, distinct contents); determinism: a "
+                "workspace whose six loads were compared (distinct file sets); CLI: a package whose graph was printed for every format",
+        "samples": samples,
+        "traces_validated_against_impl": st["traces"],
+        "input_distribution": {
+            "cross_format": {"cases": st["xformat_cases"], "loads": st["xformat_loads"], "outcomes": st["outcomes"],
+                             "makefile_projection_cases": st["makefile_cases"], "makefile_fields_dropped": st["makefile_dropped"],
+                             "makefile_bare_panics": st["makefile_bare_panics"]},
+            "scanners": {"cases": st["scanner_cases"], "outcomes": st["scanner_outcomes"], "known_panics": st["scanner_known_panics"]},
+            "robustness": {"cases": st["robust_cases"], "outcomes": st["robust_outcomes"], "known": st["robust_known"],
+                           "hangs_reexamined": st["hangs_reexamined"]},
+            "determinism": {"workspaces": st["det_cases"], "loads": st["det_loads"], "outcomes": st["det_outcomes"], "workers": list(WORKERS)},
+            "cli": {"runs": st["cli_runs"], "format_agreement": st["cli_outcomes"], "corrupt_inprocess_to_cli": st["cli_corrupt"],
+                    "known": st["cli_known"]},
+            "hang_probe": {k: (v if not isinstance(v, tuple) else list(v)) for k, v in hang_box.items()},
+        },
+        "inprocess_tie": h is not None,
+        "cli_tie": grog is not None,
+        "partial_by_nature": "that encoding/json, yaml.v3 and go.starlark.net deliver the same DTO for the same package and neither panic "
+                             "nor hang on arbitrary bytes is third-party behaviour outside Loader.v: established by the runs above only",
+    })
+    out.assumptions += [
+        "Pkl (needs an external evaluator binary) is out of scope; PackageDTO.Environments is decoded and read by nothing",
+        "the expressible projection for Makefile annotations: command = make <goal>, no exclude_inputs / bin_output / output_checks / aliases / default_platforms",
+        "glob and duration oracles of the model are filled from the real doublestar.Glob on a reference directory and a fixed table of time.ParseDuration values",
+        "when a workspace is rejected, only accept/reject is compared across orders and worker counts (which error is reported first depends on arrival order)",
+        "a per-case timeout (5 s in-process, confirmed alone with 15 s; 40 s for the CLI) stands for 'hang'",
+    ]
+
+
+def build_grog_or_none(out):
+    try:
+        return vlib.build_grog()
+    except vlib.HarnessUnavailable as e:
+        out.notes.append("cli_tie: unavailable (%s)" % str(e)[-300:])
+        return None
+
+
+def judge_hang_probe(out, box, findings, stats):
+    if box.get("error"):
+        raise RuntimeError("hang probe failed: " + box["error"])
+    f3 = findings.get("starlark-unbounded-execution")
+    for content, a in zip(STAR_HANGS, box.get("inproc", [])):
+        st, pay, msg = obs_impl(a)
+        stats["robust_cases"] += 1
+        stats["robust_outcomes"]["BUILD.star(probe):" + st] = stats["robust_outcomes"].get("BUILD.star(probe):" + st, 0) + 1
+        if st in ("ok", "error"):
+            continue
+        rep = {"kind": "robust", "file": "BUILD.star", "content_hex": content.hex(), "origin": "hang probe", "observed": st, "detail": msg}
+        if st == "hang" and star_has_loop(content) and f3:
+            out.known(f3["id"], "a BUILD.star with a long-running loop never finishes loading (no step limit, no cancellation): %r" %
+                      content[:70].decode("latin-1"))
+            stats["robust_known"] += 1
+        else:
+            out.violation("loader %s on BUILD.star (hang probe): %s" % (st, msg[:160]), rep)
+    if box.get("cli") is not None:
+        v = cli_obs(box["cli"])
+        stats["cli_runs"] += 1
+        stats["cli_corrupt"]["probe->" + v[0]] = stats["cli_corrupt"].get("probe->" + v[0], 0) + 1
+        rep = {"kind": "cli-corrupt", "file": "BUILD.star", "content_hex": STAR_LOOP.hex(), "observed": v[0], "timeout_s": 6}
+        if v[0] == "hang" and star_has_loop(STAR_LOOP) and f3:
+            out.known(f3["id"], "grog graph on a workspace whose BUILD.star loops does not exit")
+            stats["cli_known"] += 1
+        elif v[0] in ("hang", "panic"):
+            out.violation("grog graph: %s on BUILD.star %r" % (v[0], STAR_LOOP[:50]), rep)
+
+
+# ------------------------------------------------------------------ replay
+def replay(out, path):
+    rp = json.load(open(path))["replay"]
+    findings = {f["class"]: f for f in vlib.known_findings("C16")}
+    st = new_stats()
+    base = os.path.join(vlib.scratch(), "c16replay")
+    drv = vlib.build_driver("loader")
+    kind = rp.get("kind")
+    case = rp
+    if kind is None and isinstance(rp.get("case"), dict):
+        case = rp["case"]
+        kind = case.get("kind")
+    if kind in ("cli", "cli-corrupt"):
+        grog = vlib.build_grog()
+        rng = vlib.Rng(vlib.seed())
+        if kind == "cli-corrupt":
+            eval_cli(out, grog, drv, base, rng, 0, [(case["file"], bytes.fromhex(case["content_hex"]), case.get("inprocess", "error"))], findings, st)
+        else:
+            replay_cli_case(out, grog, drv, base, case, findings, st)
+        print("cli:", st["cli_outcomes"], st["cli_corrupt"])
+        return
+    h = vlib.build_harness("loader", extra_overlay=INJECT)
+    if kind == "xformat":
+        case = dict(case, files={k: list(v) for k, v in case["files"].items()})
+        eval_xformat(out, h, drv, base, [case], findings, st)
+        print("cross-format outcomes:", st["outcomes"], "makefile dropped:", st["makefile_dropped"], "bare panics:", st["makefile_bare_panics"])
+    elif kind == "scanner":
+        eval_scanners(out, h, drv, [(case["scanner"], bytes.fromhex(case["content_hex"]))], findings, st)
+        print("scanner outcomes:", st["scanner_outcomes"])
+    elif kind == "robust":
+        res = eval_robustness_confirmed(out, h, drv, base, [(case["file"], bytes.fromhex(case["content_hex"]), case.get("origin", "replay"))],
+                                        findings, st)
+        print("robustness outcome:", res[0][1])
+    elif kind == "determinism":
+        eval_determinism(out, h, drv, base, vlib.Rng(vlib.seed()), [case], st)
+        print("determinism outcomes:", st["det_outcomes"])
+    else:
+        raise RuntimeError("replay: unknown replay kind %r" % kind)
+    for v in out.violations:
+        v["what"] = "replay: " + v["what"]
+
+
+def replay_cli_case(out, grog, drv, base, c, findings, stats):
+    """re-run one recorded CLI agreement case from its recorded renderings"""
+    obs = {}
+    for fmt, (fn, txt) in c["files"].items():
+        top = os.path.join(base, "cli", fmt)
+        ws = os.path.join(top, "ws")
+        write_file(os.path.join(make_pkg_dir(ws, c["pkg"]), fn), txt)
+        write_file(os.path.join(ws, "grog.toml"), "")
+        obs[fmt] = cli_obs(run_grog(grog, ws, top, ["graph", "-o", "json"]))
+        print("%-8s -> %s" % (fmt, diff_hint(obs[fmt])))
+    bad = [(f, v) for f, v in obs.items() if v[0] in ("panic", "hang", "ok-unparsable")]
+    for f, v in bad:
+        if f == "mk" and v[0] == "panic" and model_guards(drv, [c["files"]["mk"][1]])[0] is False and "makefile-bare-annotation-panic" in findings:
+            out.known(findings["makefile-bare-annotation-panic"]["id"], "grog graph dies with a Go panic trace on a bare '# @grog' block")
+            continue
+        out.violation("replay: grog graph -o json: %s on %s" % (v[0], c["files"][f][0]), c)
+    full = {f: obs[f] for f in ("json", "yaml", "star") if f in obs}
+    if len(set(full.values())) > 1:
+        out.violation("replay: grog graph -o json differs across formats: " + "; ".join("%s -> %s" % (f, diff_hint(v)) for f, v in sorted(full.items())), c)
+    if "mk" in obs and "mkjson" in obs and obs["mk"] != obs["mkjson"] and obs["mk"][0] != "panic":
+        if obs["mk"] == obs.get("mkjson0") and "makefile-drops-fields" in findings:
+            out.known(findings["makefile-drops-fields"]["id"], "grog graph of the Makefile-annotated package lacks the four dropped fields")
+        else:
+            out.violation("replay: Makefile annotations and BUILD.json disagree on the expressible projection", c)
